@@ -290,7 +290,15 @@ def rule_F(ctx):
     c06.rule_R(_Proxy(ctx))
 
 
+def rule_S(ctx):
+    """C07.S the edge polylines of the route are joined with Track + Track: nothing of either operand is dropped (shared with C04.S)"""
+    from . import c04
+    from ..report import Proxy
+    c04.concat(Proxy(ctx, {'C04.S': 'C07.S'}))
+
+
 RULES = [
+    ('C07.S', rule_S, 'quick'),
     ('C07.F', rule_F, 'quick'),
     ('C07.N', rule_N, 'quick'),
     ('C07.P', rule_P, 'quick'),
